@@ -301,16 +301,11 @@ theorem fact_auth_types :
 theorem configure_auth_sound (typ : String) (ok : Bool) :
     (configureAuth typ ok = .noAuth → typ = "") ∧ (configureAuth typ ok = .tokenV2 → typ = "token_v2" ∧ ok = true) := by
   unfold configureAuth
-  constructor
-  · intro h; split at h; · assumption
-    split at h
-    · split at h <;> cases h
-    · cases h
-  · intro h; split at h; · cases h
-    split at h
-    · next ht => split at h; · next hk => exact ⟨ht, hk⟩
-      cases h
-    · cases h
+  by_cases h1 : typ = ""
+  · simp [h1]
+  · by_cases h2 : typ = "token_v2"
+    · cases ok <;> simp [h2]
+    · simp [h1, h2]
 
 /-- authorized_keys.go: minimum RSA size, the key types keyIsSecure accepts, and parseAuthorizedKeys' tests, verbatim -/
 theorem fact_authorized_keys :
